@@ -26,6 +26,7 @@ def main():
         print("unknown property", a.prop)
         return 2
     os.makedirs(C.TMP, exist_ok=True)
+    os.environ["VERIF_TIER_CURRENT"] = a.tier
     try:
         mod = importlib.import_module("harness.props." + MODULES[a.prop])
         return mod.run(a.prop, a.tier)
